@@ -426,6 +426,28 @@ lower_frame = case_frame('toLowerCase_frame', 'toLowerCase')
 upper_frame = case_frame('toUpperCase_frame', 'toUpperCase')
 UNITS += [lower_frame, upper_frame]
 
+# ---- String::dataw(): the UTF-16 copy lives in the string's own buffer behind the text; the room reserved must hold the alignment padding, one unit per byte and the terminator
+dataw_unit = Unit(
+    'String_dataw_room', 'C08',
+    cuts=[Cut('rs', S, r'^const wchar_t\* String::dataw\(\) const\s*\{\s*\(\(String\*\)this\)->resize\(((?:[^(),]|\([^()]*\))*), true, false\);', kind='expr', rules=[(r'\b_len\b', 'len', None), (r'sizeof\(wchar_t\)', '4', None)]),
+          Cut('of', S, r'^const wchar_t\* String::dataw\(\) const\s*\{[^;]*;\s*(int\s+offset = [^;]*;)', kind='expr', rules=[(r'\b_len\b', 'len', None)])],
+    text=PRE + r'''
+void vf_harness(void) {
+  int len = nondet_int(); __CPROVER_assume(0 <= len && len <= 100000000);
+  long long reserved = @@rs@@;                 /* resize(reserved): the capacity becomes > reserved (C03 String_resize) */
+  @@of@@
+  __CPROVER_assert(offset >= len + 1 && offset % 4 == 0, "the wide copy starts behind the text and its NUL, 4-byte aligned from the start of the buffer");
+  /* utf8toUtf16 writes at most one unit per byte of text plus the terminator (unit utf8toUtf16_anybytes): (len + 1) * 4 bytes from offset */
+  __CPROVER_assert((long long)offset + 4LL * (len + 1) <= reserved + 1, "offset + (len + 1) wide characters fit the capacity that was reserved, for EVERY length (alignment padding of 0..3 bytes included)");
+  VF_CANARY();
+}
+''',
+    entry=None, floor=2, expect=['assertion'],
+    desc='String::dataw() for every length: the buffer reservation covers text + NUL + alignment padding + (len+1) UTF-16 units',
+    functions=['String::dataw (buffer arithmetic)'], trusted=['resize(n) leaves capacity > n (C03); utf8toUtf16 output bound (unit utf8toUtf16_anybytes)'],
+)
+UNITS += [dataw_unit]
+
 # bounded twin of the loop-contract unit String_count: same contract, loops unwound for texts of at most 6 bytes (every sequence shape up to a 4-byte sequence plus more lead bytes).
 # (Twins of the four converters were tried and dropped: without the pointer anchors that come with the loop contracts their writes through walking pointers do not finish.)
 from vf.core import bounded_twin
